@@ -63,19 +63,19 @@ def write_fixture(root):
 
 # (statement, runtime usage expression or None, allowed placements)
 IMPORT_POOL = [
-    ("import shapes", "shapes.area(shapes.Circle(3))", "tmfyYFI"),
+    ("import shapes", "shapes.area(shapes.Circle(3))", "tmfyYFIS"),
     ("import shapes as sh", "sh.Square(2).side", "tmf"),
-    ("from shapes import Circle", "Circle(1).r", "tmfcyYFIE"),
+    ("from shapes import Circle", "Circle(1).r", "tmfcyYFIENKS"),
     ("from shapes import Circle as C", "C(2).r", "tmfccF"),
     ("from shapes import Square, Circle", "Square(1).side + Circle(1).r", "tmf"),
     ("from shapes import Circle as Ci, Square", "Ci(1).r + Square(2).side", "tmc"),
-    ("from shapes import Square", "Square(5).side", "tmfcYE"),
+    ("from shapes import Square", "Square(5).side", "tmfcYES"),
     ("from shapes import *", "area(Square(2))", "tm"),
     ("import geo.pts", "geo.pts.Point(1, 2).x", "tmf"),
-    ("import geo.pts as gp", "gp.Point(3, 4).y", "tm"),
+    ("import geo.pts as gp", "gp.Point(3, 4).y", "tmS"),
     ("import geo", None, "tm"),
     ("from geo import pts", "pts.Point(5, 6).x", "tmf"),
-    ("from geo.pts import Point", "Point(7, 8).y", "tmfcyYFIE"),
+    ("from geo.pts import Point", "Point(7, 8).y", "tmfcyYFIENKS"),
     ("from geo.pts import Point as P", "P(9, 1).x", "tmfccY"),
     ("import os", "os.sep", "tmf"),
     ("import os.path", "os.path.basename('a/b')", "tm"),
@@ -86,14 +86,16 @@ IMPORT_POOL = [
     ("import typing", "typing.TYPE_CHECKING", "tm"),
     ("from typing import *", "Optional is not None", "tm"),
     ("from other import Circle", "Circle(4).r", "tmfc"),
-    ("from other import Thing", "Thing(1).v", "tmfcYFE"),
+    ("from other import Thing", "Thing(1).v", "tmfcYFENK"),
     ("from other import Thing as Circle", "Circle(1).v", "tfc"),
     ("import other", "other.Thing(2).v", "tmf"),
     ("from mypy_extensions import TypedDict", "TypedDict is not None", "tm"),
     ("import typings", "typings.Payload(1).v", "tmf"),
-    ("from typings import Payload", "Payload(2).v", "tmfcYIE"),
+    ("from typings import Payload", "Payload(2).v", "tmfcYIENKS"),
     ("from typing_helpers import Helper as H", "H(3).v", "tmc"),
     ("import typing_helpers", "typing_helpers.Helper(4).v", "tm"),
+    ("import typing_helpers as th", "th.Helper(6).v", "tm"),
+    ("import shapes as shp, os", "shp.area(shp.Square(2))", "tm"),
     ("from mypy_extensions_compat import Compat", "Compat(5).v", "tmf"),
 ]
 
@@ -120,10 +122,18 @@ ALIAS_STUBS = {
 }
 
 
-def alias_stub(funcs):
+# ... and stubs that import the module itself, unaliased (the source may import it under an alias)
+MODULE_STUBS = {
+    "origin": ("import geo.pts", "def origin(p: geo.pts.Point) -> geo.pts.Point: ..."),
+    "helper": ("import typing_helpers", "def helper(h: typing_helpers.Helper, n: int = ...) -> typing_helpers.Helper: ..."),
+    "area_of": ("import shapes", "def area_of(c: shapes.Circle) -> int: ..."),
+}
+
+
+def alias_stub(funcs, table=None):
     imps, defs = [], []
     for nm in funcs:
-        i, d = ALIAS_STUBS[nm]
+        i, d = (table or ALIAS_STUBS)[nm]
         imps.append(i)
         defs.append(d)
     return "\n".join(sorted(imps)) + "\n\n\n" + "\n\n\n".join(defs) + "\n"
@@ -191,6 +201,7 @@ def gen_source(rnd, fx, directed=None, funcs=None, minimal=False, package=False)
     if not minimal:
         rnd.shuffle(picks)
     top, mid = [], []
+    need_tc = False
     use_of = {st: use for st, use, _ in IMPORT_POOL + REL_POOL}
     for n, (st, place) in enumerate(picks):
         use = use_of.get(st)
@@ -209,6 +220,19 @@ def gen_source(rnd, fx, directed=None, funcs=None, minimal=False, package=False)
             usages.append(f"_h{n}()")
         elif place == "c":
             tc_block.append(st)
+        elif place == "N":      # a TYPE_CHECKING block local to a function body
+            helpers.append(f"def _h{n}():\n    if TYPE_CHECKING:\n        {st}\n    return {n}\n")
+            usages.append(f"_h{n}()")
+            need_tc = True
+        elif place == "K":      # a TYPE_CHECKING block local to a class body
+            helpers.append(f"class Holder{n}:\n    if TYPE_CHECKING:\n        {st}\n    tag = {n}\n")
+            usages.append(f"Holder{n}.tag")
+            need_tc = True
+        elif place == "S":      # several small statements on one line, the import not first
+            shape = rnd.choice(["import os; {st}", "import os; {st}; SEMI{n} = {n}", "SEMI{n} = {n}; {st}"])
+            (top if rnd.random() < 0.6 else mid).append(shape.format(st=st, n=n))
+            if use:
+                usages.append(use)
         elif place == "E":      # run-time fallback in the else branch of the TYPE_CHECKING statement
             tc_else.append(st)
             if use:
@@ -238,6 +262,8 @@ def gen_source(rnd, fx, directed=None, funcs=None, minimal=False, package=False)
         else:
             top.append("import typing")
             tc_head = "if typing.TYPE_CHECKING:"
+    if need_tc and "from typing import TYPE_CHECKING" not in top:
+        top.append("from typing import TYPE_CHECKING")
     lines += head + top
     if mid or (not minimal and rnd.random() < 0.3):
         lines.append("LIMIT = 10")
@@ -411,13 +437,18 @@ def _header_names(cls):
     return seen
 
 
-def reify_module(text):
+def reify_module(text, flags=None):
+    """`flags["inexact"]` is set when small statements share a line (`a; b`): each is then abstracted as a statement of
+    its own, which is exact for the specification's clauses but not for libcst's notion of the leading import block,
+    so such cases are compared with the specification only, not with the model."""
     tree = ast.parse(text)
     out = []
     prev_line = None
     for idx, st in enumerate(tree.body):
         if prev_line is not None and st.lineno <= prev_line:
-            raise Unreifiable("two statements on one line")
+            if flags is None:
+                raise Unreifiable("two statements on one line")
+            flags["inexact"] = True
         prev_line = st.end_lineno
         if idx == 0 and isinstance(st, ast.Expr) and isinstance(st.value, ast.Constant) and isinstance(st.value.value, str):
             out.append(f"SDoc {_tok(st)}")
